@@ -6,6 +6,7 @@ CONFIG = {
             "systematic part = (a) every chain module>b1>b2 (>b3) x placement patterns of the operations of one name before/after the nested block x parameter variants, "
             "(b) sibling families: every parent block (module; function binding x before/after its children or by a positional/default/*/kw-only/** parameter; class; function or class nested in a function binding x) x every ORDERED pair and triple of child scopes, "
             "each child drawn independently from the full alphabet def/class/lambda/comprehension x use/bind/global/nonlocal/del sequences x a nested grandchild scope (class bodies with methods and comprehensions using the name the class binds); "
+            "(c) outer-declaration chains (round 3): chains of depth 2, 3 and 4 in which every level draws its operations on the name independently from the level alphabet (nothing/bind/global/global+bind/nonlocal/use/parameter/bind after the nested block/class/lambda/comprehension ...), the innermost block reads the name, and one extra sibling scope (def or class with `global x`, `global x; x = ..`, `x = ..`) stands before or after the chain's block at any one level incl. module level, x 5 module-level patterns (nothing, bind, `global x`, `global x; x = ..`, bind after); depth 2 complete, depth 3 and 4 sampled by a VERIF_SEED-dependent stride in quick (thorough: depth 3 every 3rd, larger alphabet); every third of these renders bindings as `for x in (v,): pass` instead of `x = v` (tag forstyle); "
             "random part = VERIF_SEED-derived trees with several children per block, plus a dense profile (1-2 names, 2-4 child scopes per block); "
             "tag cpsens = the model without `temp_bound := bound.Copy()` gives a different table on this case (measured sensitivity to sibling aliasing of the bound set); every program is analysed 8 times by symtable.NewSymTable (Go map order varies) and then compiled and run; "
             "V = per-block scope classification of every name + the values every `use` printed + final exception class (or E:SyntaxError), R = def-use flags, exact scope, Varnames, NeedsClassClosure; "
@@ -14,12 +15,13 @@ CONFIG = {
         "Lean 4.33.0 kernel; axioms allowed: propext, Classical.choice, Quot.sound (audited per theorem on every run)",
         "lean/GPy/C03/Spec.lean: my transcription of Python's scoping rules (language reference 4.1, 7.12, 7.13, 8.7; CPython's reading for `global` in an intermediate function) and of the run-time store (one location per variable per activation, class namespace dictionaries, defaults evaluated at def time)",
         "lean/GPy/C03/Model.lean: hand transliteration of symtable/symtable.go (Parse/AddDef, AnalyzeName, AnalyzeCells, DropClassFree, Symbols.Update, AnalyzeBlock, AnalyzeChildBlock, Find), compile.go (NameOp scope->opcode table, slot arithmetic, getRefType, makeClosure, Cellvars/Freevars) and vm/eval.go (EvalCode cell set-up, LOAD/STORE/DELETE_{FAST,DEREF,GLOBAL,NAME}, LOAD_CLASSDEREF, LOAD_CLOSURE); Go maps are total functions, every `range` over a map is a fold over an arbitrarily permuted key list; the three sets AnalyzeBlock hands to AnalyzeChildBlock are threaded through the children loop as state with `temp_bound := bound.Copy()` an explicit step; tied to the repo by the correspondence run only",
+        "extract/symfacts (go/ast, ~450 lines): reads (*SymTable).AnalyzeName and AnalyzeChildBlock of the working tree into lean/GPy/C03/Generated/AnalyzeNameFacts.lean on every run (order of the if-tests on flags/sets, per branch the scope constant, Add/Discard/Contains on bound/local/free/global, the SyntaxError by its message, return; anything else = `unknown`); Props.lean proves the model's AnalyzeName equal to the interpretation of the same table (analyzeName_is_table) and pins the extracted table against it by `decide` (analyzeName_decision_pinned, childBlock_copies_pinned); trusted: the extractor's reading of these statement forms and `Prog.exec` as their meaning",
         "the rendering scope tree -> Python text (Gen.lean) and the gpython parser (parser.ParseString) producing the AST that text denotes",
         "harness/c03.go and checks/common.py (case transport, canonical dumps)",
     ],
     "assumptions": [
         "the model's universe of names (every name of the program plus __class__, .0, _[1]) contains every key of every symbol table map; st.Free/st.ChildFree/Generator/ReturnsValue flags are not modelled (the compiler does not read the first two)",
-        "name mangling, exec/eval/locals(), import, try/except/with targets, augmented assignment are outside the modelled fragment (locals() is used by two corpus cases only)",
+        "name mangling, exec/eval/locals(), import(-as) (DefImport), except-as, with-as targets and augmented assignment are outside the modelled fragment; for-targets are covered as a surface form of `bind` (same symtable event: Name in Store context) (locals() is used by two corpus cases only)",
         "run-time protocol of a generated program: every def is called (without arguments) right after its definition and once more at the end of the enclosing body; classes/lambdas/comprehensions run once where they stand",
     ],
     "exhaustive": False,
@@ -27,6 +29,24 @@ CONFIG = {
     "case_timeout": 30.0,
     "group": lambda r: r["impl"].split(" # ")[-1][-24:] + "|" + r["spec"].split(" # ")[-1][-24:],
 }
+
+
+def pre(run):
+    """regenerate lean/GPy/C03/Generated/AnalyzeNameFacts.lean from symtable/symtable.go of the working tree (extract/symfacts):
+    the decision sequence of (*SymTable).AnalyzeName and the Copy() calls of AnalyzeChildBlock; Props.lean pins them against the model
+    (analyzeName_decision_pinned, childBlock_copies_pinned)"""
+    import common
+    out_lean = os.path.join(common.LEAN, "GPy", "C03", "Generated", "AnalyzeNameFacts.lean")
+    before = open(out_lean).read() if os.path.exists(out_lean) else ""
+    rc, out = common.sh(["go", "run", ".", common.REPO, out_lean], cwd=os.path.join(common.ROOT, "extract", "symfacts"),
+                        env=common.GOENV, timeout=600)
+    after = open(out_lean).read() if os.path.exists(out_lean) else ""
+    run.cov["symfacts"] = {"cmd": "cd extract/symfacts && go run . <repo> lean/GPy/C03/Generated/AnalyzeNameFacts.lean", "exit": rc,
+                           "output": out.strip()[-300:], "unknown_constructs": after.count("unknown"),
+                           "generated_file_differs_from_committed_baseline": after != before and before != ""}
+    if rc != 0:
+        run.violation({"kind": "extractor", "broken": "extract/symfacts cannot read (*SymTable).AnalyzeName of the working tree any more: "
+                       "analyzeName_decision_pinned is no longer about the current code", "output": out[-2000:]}, nofail=True)
 
 
 def extra(run):
